@@ -12,7 +12,24 @@ NOTES = {
  "C12-A": "missed at first; C12 gained sessions of 3-4 calls on one client instance",
  "C13-A": "missed at first; C13's menu gained a Retry-After above the 128 s cap",
  "C13-B": "missed at first; C13's menu gained a transport-level timeout error (errors.Is(err, context.DeadlineExceeded)) with a live caller context",
+ "C14-A": "neutralised by fix 94192e0 (hash re-check): with the fix the change no longer breaks the property (its demonstration passes); on the pre-fix tree C14 reports it as `[unparseable-row]`",
  "C16-A": "missed at first; C16's callback now retains the batches and re-reads them after the scan",
+ "C01-D": "missed at first; ref/pki gained RSA keys published with a non-canonical SubjectPublicKeyInfo, used as issuers in C01 and C03",
+ "C02-C": "missed at first (every pass pinned `now`); C02 gained the live-instance pass: real SetUpInstance from a LogConfig in a synctest bubble, one instance submitted to before and after the leaves' NotAfter",
+ "C02-D": "missed at first (filters were injected as options, not parsed from a configuration); caught by the live-instance pass with 2-3 reject_extensions in every order",
+ "C04-D": "missed at first; C04 now holds x509util.ParseSCTsFromCertificate (DER, PEM) to the accept set of the two-step route",
+ "C06-C": "C06 itself missed it at first (it computed the client's leaf hash with ctutil, which shares the server's code); C06 now compares the stored issuer_key_hash with the template's",
+ "C10-C": "missed at first; C10 gained the reused-destination pass (ordered pairs of valid encodings into one variable) and slices whose first elements differ",
+ "C10-D": "missed at first; C10's mutations gained base-128 numbers of 10 and 11 octets that wrap a 64-bit accumulator",
+ "C12-D": "missed at first; C12's body-read errors gained the cut at the full body length",
+ "C13-C": "missed at first; C13 gained scenarios with a server that keeps failing (window reaches the cap) and a prompt server with owned jitter",
+ "C13-D": "missed at first; C13's menu gained the empty 200 body",
+ "C14-C": "missed at first; C14 gained 'the request's context ends while its backend read is in flight'",
+ "C14-D": "missed at first; C14 gained the two-logs-of-one-process pass with caches from the real constructor",
+ "C16-C": "missed at first; C16 gained slow-consumer scenarios (every callback invocation is a gate)",
+ "C16-D": "missed at first; C16's answers gained a per-request transport timeout that matches context.DeadlineExceeded",
+ "C18-D": "missed at first; C18 now also places windows around the wall clock",
+ "C19-C": "missed at first; C19's alphabet gained alias spellings of a configured log id",
 }
 rows = []
 for f in sorted(glob.glob("/verif/seeded/*/meta.json")):
